@@ -122,6 +122,19 @@ type DecArshal struct {
 
 var errRejectedByUser = errors.New("rejected by user code")
 
+// droppedWhileLocating recognises one specific, recorded defect (see
+// known_findings.txt) so that it is reported under its own class and site and
+// every other difference keeps being reported as before: user code rejected a
+// value before reading it; to give that error a position the library peeks at
+// the value, the peek met a transient read error, the error was dropped and the
+// position computed from what happened to be buffered. Same error, same
+// pointer, only the offset differs from the fault-free run.
+func droppedWhileLocating(p *DecArshalPlan, faultsDelivered int, gerr, werr errClass) bool {
+	return p.FromFunc && p.RejectFunc && faultsDelivered > 0 &&
+		gerr.Kind == "semantic" && werr.Kind == "semantic" &&
+		gerr.Ptr == werr.Ptr && gerr.Sent == werr.Sent && gerr.Off < werr.Off
+}
+
 func (sc *DecArshal) plan(t *core.Tape, env *Env) *DecArshalPlan {
 	p := &DecArshalPlan{}
 	ps := t.S("plan")
@@ -493,7 +506,11 @@ func (sc *DecArshal) Run(t *core.Tape, env *Env) (any, []core.Violation) {
 			// if the outcome equals the fault-free one (checked below)
 			st.Probe("decarshal/fault-met-but-call-completed")
 		}
-		if gerr != werr {
+		if droppedWhileLocating(p, tap.FaultsDelivered, gerr, werr) {
+			if report("C05", "C05/fault-dropped-while-locating-user-error", "UnmarshalRead", "UnmarshalRead: %v ; Unmarshal: %v ; a transient read error was delivered and never reported; input=%s", gerr, werr, clip(in, 200)) {
+				return p, viols
+			}
+		} else if gerr != werr {
 			if report("C05", "C05/unmarshalread-vs-unmarshal/error", tgt.Name, "UnmarshalRead: %v ; Unmarshal: %v ; input=%s", gerr, werr, clip(in, 200)) {
 				return p, viols
 			}
@@ -535,7 +552,11 @@ func (sc *DecArshal) Run(t *core.Tape, env *Env) (any, []core.Violation) {
 				return p, viols // mid-value abort: nothing further promised
 			}
 			gobs := observe(d, d.InputOffset(), true)
-			if gerr != werr {
+			if droppedWhileLocating(p, tap.FaultsDelivered, gerr, werr) {
+				if report("C05", "C05/fault-dropped-while-locating-user-error", "UnmarshalDecode", "value %d: stream %v ; slice %v ; a transient read error was delivered and never reported; input=%s", k, gerr, werr, clip(in, 200)) {
+					return p, viols
+				}
+			} else if gerr != werr {
 				if report("C05", "C05/unmarshaldecode-stream-vs-slice/error", tgt.Name, "value %d: stream %v ; slice %v ; input=%s", k, gerr, werr, clip(in, 200)) {
 					return p, viols
 				}
